@@ -450,7 +450,9 @@ def check_kernels(pid):
             out.append({"kernel": k["name"], "status": "fallback", "detail": "source not readable: " + str(e)})
     d = os.path.join(common.VERIF, ".scratch")
     os.makedirs(d, exist_ok=True)
-    for k, body in todo:
+    def _one(kb):
+        k, body = kb
+        res = None
         path = os.path.join(d, f"Gen_{pid}_{k['name']}_{os.getpid()}.v")
         if k["name"].startswith("prog_"):
             text = program_text(k, body)
@@ -471,9 +473,9 @@ def check_kernels(pid):
             p = subprocess.run(["coqc", "-Q", "model", "JSL", "-Q", "spec", "JSL", "-Q", "proofs", "JSL",
                                 "-o", path[:-2] + ".vo", path], cwd=COQ, capture_output=True, text=True, timeout=300)
             if p.returncode == 0:
-                out.append({"kernel": k["name"], "status": "tied", "detail": body})
+                res = ({"kernel": k["name"], "status": "tied", "detail": body})
             else:
-                out.append({"kernel": k["name"], "status": "broken",
+                res = ({"kernel": k["name"], "status": "broken",
                             "detail": f"translated source: {body} ; model: {k['model']} ; coqc: " +
                                       (p.stdout + p.stderr)[-600:]})
         finally:
@@ -486,6 +488,11 @@ def check_kernels(pid):
                 os.remove(os.path.join(d, "." + os.path.basename(path)[:-2] + ".aux"))
             except OSError:
                 pass
+        return res
+
+    from concurrent.futures import ThreadPoolExecutor
+    with ThreadPoolExecutor(max_workers=8) as ex:
+        out.extend(ex.map(_one, todo))
     return out
 
 
